@@ -52,6 +52,10 @@ func genC09(seed uint64, tier string) *plan.Plan {
 	}
 	yields(p, r)
 	p.Yield.MaxUs = min(p.Yield.MaxUs, 300)
+	if r.Bool(300) {
+		// many short pauses at the scheduling points (function entries and clock reads)
+		p.Yield = plan.YieldSpec{ArmPermille: 700, ParkPermille: 500, MaxUs: int64(Pick(r, 100, 400, 900))}
+	}
 	nchains := r.Range(1, 3)
 	ph := plan.Phase{Name: "chains", Yields: true}
 	vn := 0
@@ -98,7 +102,7 @@ func genC09(seed uint64, tier string) *plan.Plan {
 			nprobe := r.Range(1, 5)
 			for i := 0; i < nprobe; i++ {
 				if ttl > 0 {
-					off := int64(Pick(r, -30, -2, -1, 0, 1, 2, 3, 40, 1200))
+					off := int64(Pick(r, -30, -2, -1, -1, 0, 0, 1, 2, 3, 40, 1200))
 					add(plan.Op{K: "ctl.sleep_rel", Ref: ref, Dur: ttl + off})
 				} else {
 					add(plan.Op{K: "ctl.sleep", Dur: int64(Pick(r, 1, 50, 3000))})
@@ -109,7 +113,7 @@ func genC09(seed uint64, tier string) *plan.Plan {
 					op = plan.Op{K: "get", Key: key}
 				case x < 45:
 					op = plan.Op{K: "getput", Key: key, Val: val()}
-				case x < 60 && numeric:
+				case numeric && (x < 60 || r.Bool(400)):
 					op = plan.Op{K: Pick(r, "incr", "decr"), Key: key, Delta: int64(r.Range(1, 9))}
 				case x < 70:
 					op = plan.Op{K: "put", Key: key, Val: val(), NX: true}
@@ -121,6 +125,11 @@ func genC09(seed uint64, tier string) *plan.Plan {
 					op = plan.Op{K: "del", Key: key}
 				default:
 					op = plan.Op{K: "put", Key: key, Val: val()}
+				}
+				if r.Bool(600) {
+					// a sub-millisecond phase: the operation is in flight (between its own expiry
+					// check and its write) while the deadline passes
+					op.D = int64(r.Intn(1000))
 				}
 				j := add(op)
 				add(plan.Op{K: "get", Key: key})
